@@ -107,6 +107,13 @@ def make_target(t):
         inst = ns['Stub']()
         base = inst.meth if t['kind'] == 'method' else inst
     desc = src
+    if t.get('wraps'):
+        # the target is a functools.wraps-decorated wrapper around a function with a DIFFERENT signature: a call binds
+        # against the wrapper's own parameters (inspect.signature would follow __wrapped__, getfullargspec does not)
+        ns2 = {'EVALS': EVALS, '__name__': 'harness_valid_stubs'}
+        exec('def wrapped_inner(q, r=1, *, zz, k=2):\n    return 1\n', ns2)
+        base = functools.wraps(ns2['wrapped_inner'])(base)
+        desc = 'def wrapped_inner(q, r=1, *, zz, k=2): ...\n@functools.wraps(wrapped_inner)\n' + desc
     if t['partial']:
         base = functools.partial(base, *([1] * t['pa']), **{n: 1 for n in t['pk']})
         desc += 'functools.partial(%s, %s)' % ('stub' if t['kind'] == 'func' else 'Stub().meth' if t['kind'] == 'method' else 'Stub()',
@@ -147,7 +154,10 @@ def run_target(klepto, t, calls):
 def _run_chunk(job):
     targets, calls = job
     klepto = common.import_klepto()
-    return [run_target(klepto, t, calls) for t in targets]
+    out = [run_target(klepto, t, calls) for t in targets]
+    # plain functions (and partials over them) once more as functools.wraps-decorated wrappers
+    out += [run_target(klepto, dict(t, wraps=True), calls) for t in targets if t['kind'] == 'func']
+    return out
 
 
 def real_traces(targets, calls):
@@ -165,7 +175,7 @@ def signature(t, v):
     tg = t['t']
     kw = set(e['call']['k'])
     kon = {p['n'] for p in tg['sig']['ko']}
-    return {'engine': 'valid', 'clauses': v[1], 'kind': tg['kind'], 'partial': tg['partial'],
+    return {'engine': 'valid', 'clauses': v[1], 'kind': tg['kind'], 'partial': tg['partial'], 'wraps': bool(tg.get('wraps')),
             'partial_over_bound': bool(tg['partial'] and tg['kind'] != 'func'),
             'kwonly': bool(kon), 'varargs': tg['sig']['va'], 'varkw': tg['sig']['vk'],
             'isvalid': e['isvalid'], 'validate': e['validate'], 'actual': e['actual']}
@@ -224,7 +234,7 @@ def main(pid, tier):
     valid_cases = sum(1 for t in traces for e in t['events'] if e['actual'] == 'ok')
     classes = {}
     for t in traces:
-        k = '%s%s' % (t['t']['kind'], '+partial' if t['t']['partial'] else '')
+        k = '%s%s%s' % (t['t']['kind'], '+wraps' if t['t'].get('wraps') else '', '+partial' if t['t']['partial'] else '')
         c = classes.setdefault(k, {'targets': 0, 'valid': 0, 'invalid': 0})
         c['targets'] += 1
         for e in t['events']:
